@@ -433,7 +433,7 @@ def replay(pid, path):
 
 
 HOOK_COMMITS = ["ffc8b2b"]
-FIX_COMMITS = ["ca17dcd", "3401bdf", "db0baa0", "3af4e16", "b9b9933", "8154c20", "f1b4fb0", "9b44a2c", "d0885ee", "c8750dd", "2ca6488", "82641ae", "d771171", "a1dc9d0"]
+FIX_COMMITS = ["ca17dcd", "3401bdf", "db0baa0", "3af4e16", "b9b9933", "8154c20", "f1b4fb0", "9b44a2c", "d0885ee", "c8750dd", "2ca6488", "82641ae", "d771171", "a1dc9d0", "06d5e1b"]
 NOT_YET = {}
 
 PROOF_NOTE = ("Trusted: Lean kernel; Semantics/*.lean as the specification; the correspondence harness and serialisers; "
@@ -654,14 +654,14 @@ PROPS = {
                 "generator (input/output/private predicates, ranked bodies so that most programs are tight, placeholders of all sorts, specification sides, proof outlines with lemmas, definitions, "
                 "inductive lemmas; 1/5 deliberately violate an applicability condition) x all flags; ExternalEquivalenceTask::decompose vs Lean `externalProblems`: error kind or the full list of problems "
                 "(names, roles, formula trees), and the full TPTP text",
-        "level_text": "Full for the model under one decidable side condition (the rename-clash known finding; the missing-output defect was repaired, fix 82641ae, clause OutputsEmpty): the whole pipeline (checks, tau*, placeholder replacement, completion, simplification, control translation, private renaming, outline, assembly, decomposition) is modelled and tied by "
+        "level_text": "Full for the model (both defects found were repaired: missing output predicate, fix 82641ae, clause OutputsEmpty; private rename clash, fix 06d5e1b, theorems private_renaming_fresh and one_interpretation_carries_both_readings): the whole pipeline (checks, tau*, placeholder replacement, completion, simplification, control translation, private renaming, outline, assembly, decomposition) is modelled and tied by "
                       "exact correspondence. Proved: external_refutes_programs - for a task that compares two programs (no placeholders, no proof outline, tightness not bypassed; every direction, decomposition, "
                       "simplify and eq-break flag): some emitted problem is refuted by a classical interpretation iff it satisfies the user-guide assumptions and, in a requested direction, is a stable model of one "
                       "program (on that program's vocabulary, with its own input facts) and satisfies the completed definitions of the other program's private predicates without being a stable model of it "
                       "(composition of C04 completion_tight, C07, C19, private renaming, assembly; hypothesis: rename_conflicting_symbols is the identity on the assembled problems); cannot_produce_public_part - "
                       "with simplification off the last clause is the same as 'no stable model of that program has the same extents of the non-private predicates' (uniqueness of the private extents without "
-                      "private recursion, private_extents_unique, by induction on the rank in the private dependency graph); external_refutes_specification - the same for a specification (annotated formulas, every role and direction annotation the task accepts) against a program: refuted iff the interpretation satisfies the user-guide assumptions, the specification's universal assumptions and the program's private definitions and either (forward) satisfies the specification's forward premises (forward assumptions, universal/forward spec formulas) without being a stable model of the program, or (backward) is a stable model of the program and falsifies a universal/backward spec formula (specification_roles: which annotation plays which part; a backward-annotated assumption of the specification is dropped by the code); external_refutes_programs_with_placeholders / external_refutes_specification_with_placeholders - both statements for user guides that declare placeholders of any sort: a program with placeholders is read as the reference semantics prescribes, every placeholder replaced by the precomputed term the interpretation assigns to it (Program.substSym (phNu m J.fc)); rests on tauStar_substSym and completion_substSym (tau* and completion commute with the substitution of closed terms for symbolic constants; replace_placeholders is an instance) and sat_substSym_congr (only the values of the substituted terms matter); external_sound_with_outline - for EVERY accepted task (placeholders, proof outline with lemmas, inductive lemmas, definitions of any direction): if no emitted problem (outline problems and final problems) has a countermodel, no interpretation satisfying the user-guide assumptions witnesses a difference in a requested direction; rests on assembled_outline_sound (an accepted outline does not change what is claimed), C13 outline_sound and proofOutlineFrom_defsExt (accepted definitions can be made true by re-interpreting only the predicates they define). With an outline the converse is not claimed (a false lemma has a countermodel although the sides agree). The literal property was FALSE on the unchanged tree at two points: the missing-output defect (repaired; missing_output_now_refutable) and the private rename clash (known finding; kernel-checked "
-                      "counterexample theorem external_counterexample_rename and a corpus witness replayed on the implementation).",
+                      "private recursion, private_extents_unique, by induction on the rank in the private dependency graph); external_refutes_specification - the same for a specification (annotated formulas, every role and direction annotation the task accepts) against a program: refuted iff the interpretation satisfies the user-guide assumptions, the specification's universal assumptions and the program's private definitions and either (forward) satisfies the specification's forward premises (forward assumptions, universal/forward spec formulas) without being a stable model of the program, or (backward) is a stable model of the program and falsifies a universal/backward spec formula (specification_roles: which annotation plays which part; a backward-annotated assumption of the specification is dropped by the code); external_refutes_programs_with_placeholders / external_refutes_specification_with_placeholders - both statements for user guides that declare placeholders of any sort: a program with placeholders is read as the reference semantics prescribes, every placeholder replaced by the precomputed term the interpretation assigns to it (Program.substSym (phNu m J.fc)); rests on tauStar_substSym and completion_substSym (tau* and completion commute with the substitution of closed terms for symbolic constants; replace_placeholders is an instance) and sat_substSym_congr (only the values of the substituted terms matter); external_sound_with_outline - for EVERY accepted task (placeholders, proof outline with lemmas, inductive lemmas, definitions of any direction): if no emitted problem (outline problems and final problems) has a countermodel, no interpretation satisfying the user-guide assumptions witnesses a difference in a requested direction; rests on assembled_outline_sound (an accepted outline does not change what is claimed), C13 outline_sound and proofOutlineFrom_defsExt (accepted definitions can be made true by re-interpreting only the predicates they define). With an outline the converse is not claimed (a false lemma has a countermodel although the sides agree). The literal property was FALSE on the unchanged tree at two points: the missing-output defect (repaired; missing_output_now_refutable) and the private rename clash (repaired; rename_clash_now_separated; private_renaming_fresh: the names chosen for clashing private predicates are no predicates of the task and pairwise different, by pigeonhole on the injective family p, p1, p2, ...; "
+                      "one_interpretation_carries_both_readings: any extents for the two sides that agree on the public predicates are read off one interpretation, the program side through the renaming). Corpus witnesses of both are replayed on the implementation and reported if they ever fail again.",
         "level_note": PROOF_NOTE,
         "technique": "Lean 4 (pipeline model, counterexample theorems by kernel evaluation, decomposition theorems) + end-to-end differential correspondence",
         "design_ref": "DESIGN.md 6/C02",
